@@ -3,6 +3,7 @@ package main
 import (
 	"fmt"
 	"go/constant"
+	"go/token"
 	"sort"
 	"strings"
 
@@ -360,6 +361,12 @@ func c13FilterUses(c *Ctx, r *Report) {
 			continue
 		}
 		arg := apath(call.Common().Args[1])
+		// the names must be validated against the registry being filtered itself,
+		// not against a narrowed or derived registry
+		if call.Common().Args[0] != ssa.Value(fn.Params[0]) {
+			r.Bad("names-validated", "Filter|receiver|"+lastField(arg), call.Pos(), "Filter validates FilterOptions."+lastField(arg)+" against "+apath(call.Common().Args[0])+" instead of the registry being filtered: a name this registry lists can be rejected as unknown")
+			continue
+		}
 		// error component tested against nil with a return of (nil, err)
 		tested := false
 		for _, ref := range *cv.Referrers() {
@@ -387,6 +394,60 @@ func c13FilterUses(c *Ctx, r *Report) {
 		if tested {
 			seen[lastField(arg)] = true
 		}
+	}
+	// every error Filter can return comes from name validation, the documented
+	// NameFilter/name-list conflict, or re-registration — in particular never from
+	// the source lists: every declared source is a valid selector even when no
+	// lint (of some kind) carries it
+	origins := map[string]token.Pos{}
+	var trace func(v ssa.Value, seenV map[ssa.Value]bool)
+	trace = func(v ssa.Value, seenV map[ssa.Value]bool) {
+		if seenV[v] {
+			return
+		}
+		seenV[v] = true
+		switch x := v.(type) {
+		case *ssa.Const:
+		case *ssa.Phi:
+			for _, e := range x.Edges {
+				trace(e, seenV)
+			}
+		case *ssa.Extract:
+			trace(x.Tuple, seenV)
+		case *ssa.Call:
+			if callee := x.Call.StaticCallee(); callee != nil {
+				origins[fname(callee)] = x.Pos()
+			} else {
+				origins["<dynamic call>"] = x.Pos()
+			}
+		case *ssa.MakeInterface:
+			trace(x.X, seenV)
+		case *ssa.ChangeInterface:
+			trace(x.X, seenV)
+		case *ssa.UnOp:
+			origins["load "+apath(x.X)] = x.Pos()
+		default:
+			origins[fmt.Sprintf("%T", v)] = v.Pos()
+		}
+	}
+	allInstrs(fn, func(in ssa.Instruction) {
+		if ret, ok := in.(*ssa.Return); ok {
+			if rv := retVals(ret); len(rv) == 2 {
+				trace(rv[1], map[ssa.Value]bool{})
+			}
+		}
+	})
+	allowed := map[string]bool{"(*lint.registryImpl).lintNamesToMap": true, "errors.New": true, "<dynamic call>": true}
+	nOrig := 0
+	for o, pos := range origins {
+		nOrig++
+		r.Check(allowed[o], "filter-errors", "Filter|"+o, pos, "error origin allowed (name validation / NameFilter conflict / re-registration)",
+			"Filter can fail with an error produced by "+o+": only unknown names, the NameFilter/name-list conflict and re-registration may be rejected — a listed source or name must be accepted")
+	}
+	r.Floor("error origins of Filter", 3, nOrig)
+	if f := c.FuncMaybe("lint", "sourceListToMap"); f != nil {
+		res := f.Signature.Results()
+		r.Check(res.Len() == 1, "filter-errors", "sourceListToMap|signature", f.Pos(), "returns only the set", "sourceListToMap can return an error: a source the registry lists could be rejected by Filter")
 	}
 	for _, f := range []string{"ExcludeNames", "IncludeNames"} {
 		r.Check(seen[f], "names-validated", "Filter|"+f, fn.Pos(), "validated by lintNamesToMap, error returned", "Filter does not pass FilterOptions."+f+" through lintNamesToMap and return its error: unknown names would be ignored silently")
